@@ -271,7 +271,7 @@ func slice(p *Path, x, lo, hi, max value) value {
 		Len = len(x)
 		Cap = Len
 	case symString:
-		Len = len(x.b)
+		Len = strLen(x)
 		Cap = Len
 	case []value:
 		Len = len(x)
@@ -315,7 +315,7 @@ func slice(p *Path, x, lo, hi, max value) value {
 	case string:
 		return x[l:h]
 	case symString:
-		return mkStr(x.b[l:h])
+		return mkStr(strBytes(x)[l:h])
 	case []value:
 		return x[l:h:m]
 	case *value: // *array
@@ -1027,7 +1027,7 @@ func callBuiltin(caller *frame, callpos token.Pos, fn *ssa.Builtin, args []value
 		case []value:
 			return len(x)
 		case symString:
-			return len(x.b)
+			return strLen(x)
 		case *omap:
 			return x.len()
 		case chan value:
@@ -1138,7 +1138,7 @@ func rangeIter(fr *frame, x value, t types.Type) iter {
 	case string:
 		return &stringIter{Reader: strings.NewReader(x)}
 	case symString:
-		return &symStringIter{fr: fr, b: x.b}
+		return &symStringIter{fr: fr, b: strBytes(x)}
 	}
 	panic(engineBug{fmt.Sprintf("cannot range over %T", x)})
 }
